@@ -173,10 +173,10 @@ Qed.
 (* ------------------------------------------------------------------ how many registers an operation needs *)
 Definition epr_need (k : eprkind) (inner : nat) : nat :=
   match k with
-  | EKeep => 0
+  | EKeep _ => 0
   | ERecvCorr => 5
-  | EPost _ => 3 + Nat.max 4 inner
-  | ECtx => 1 + Nat.max 4 inner
+  | EPost _ _ => 3 + Nat.max 4 inner
+  | ECtx _ => 1 + Nat.max 4 inner
   end.
 
 Fixpoint need (s : stmt) : nat :=
@@ -371,6 +371,19 @@ Proof. unfold same_ap, good. intros st st' n (H1 & H2). rewrite H1, H2. repeat s
 Lemma qubit_id_err : forall q st e, qubit_id q st = Err e -> e <> EOutOfRegs.
 Proof. intros q st e H. unfold qubit_id in H. destruct (alook q (l_q st)); [discriminate|]. inversion H. discriminate. Qed.
 
+Lemma epr_arrays_same : forall n seq st, same_ap (epr_arrays n seq st) st.
+Proof.
+  intros n seq st. unfold epr_arrays. generalize 0 as i. revert st.
+  induction n as [|n IH]; intros st i; cbn [epr_arrays_at]; [split; reflexivity|].
+  destruct (IH (mkL (l_act st) (l_peak st) (l_mused st) (l_q st) (S (l_next st))
+                    (l_decl st ++ [(l_next st, 2, if seq && Nat.eqb i 1 then Some [Some 0%Z; Some 0%Z] else None)])
+                    (l_ret st) (l_rf st) (l_lv st) ((l_next st, 2) :: l_len st)) (S i)) as [A B].
+  split; [rewrite A|rewrite B]; reflexivity.
+Qed.
+
+Lemma oor_same : forall a b n e, same_ap a b -> oor_ok a n e -> oor_ok b n e.
+Proof. unfold oor_ok, same_ap. intros a b n e [E _] H. rewrite <- E. exact H. Qed.
+
 Theorem lower_ok_all : forall fd, (forall s, stmt_ok fd s) /\ (forall b, block_ok fd b).
 Proof.
   intro fd. apply stmt_block_ind; unfold stmt_ok, block_ok.
@@ -496,12 +509,24 @@ Proof.
       * intros Hl Hc. apply IHb; cbn [bind_lvr with_lvs l_act]; [congruence|lia].
     + intros Hl Hc. apply take_err in Ht. destruct Ht as [_ Ht]. unfold NREGS in *. lia.
   - (* SEpr *) intros k body IH st. cbn [lower_stmt need]. destruct k; cbn [epr_need].
-    + destruct body; [apply good_refl|oor_trivial].
+    + destruct body; [apply same_good; apply epr_arrays_same|oor_trivial].
     + destruct body; [|oor_trivial].
-      destruct (transient 5 st) as [st1|e] eqn:Et; cbn [bind].
-      * eapply transient_facts; eauto.
-      * intros Hl Hc. apply transient_err in Et. destruct Et as [_ Et]. lia.
+      assert (Sa := epr_arrays_same 2 false st).
+      destruct (transient 5 (epr_arrays 2 false st)) as [st1|e] eqn:Et; cbn [bind].
+      * eapply good_same_l; [exact Sa|]. eapply transient_facts; eauto.
+      * eapply oor_same; [exact Sa|].
+        intros Hl Hc. apply transient_err in Et. destruct Et as [_ Et]. lia.
     + (* EPost *)
+      assert (Sa := epr_arrays_same narr true st).
+      remember (epr_arrays narr true st) as st0 eqn:Est0. clear Est0.
+      match goal with |- match ?X with _ => _ end =>
+        assert (Hrew : match X with
+                       | Ok (c, st') => good st0 st' (3 + Nat.max 4 (bneed body))
+                       | Err e => oor_ok st0 (3 + Nat.max 4 (bneed body)) e
+                       end);
+        [|destruct X as [[c st']|e]; [eapply good_same_l; eauto|eapply oor_same; eauto]]
+      end.
+      clear Sa. rename st into st_orig. rename st0 into st.
       destruct (take st) as [[r1 s1]|e] eqn:H1; cbn [bind];
         [|intros Hl Hc; apply take_err in H1; destruct H1 as [_ H1]; unfold NREGS in *; lia].
       destruct (take_len_count _ _ _ H1) as [L1 C1].
@@ -535,6 +560,16 @@ Proof.
       * destruct corr; [|discriminate].
         intros Hl Hc. apply transient_err in E5. destruct E5 as [_ E5]. unfold NREGS in *. lia.
     + (* ECtx *)
+      assert (Sa := epr_arrays_same narr false st).
+      remember (epr_arrays narr false st) as st0 eqn:Est0. clear Est0.
+      match goal with |- match ?X with _ => _ end =>
+        assert (Hrew : match X with
+                       | Ok (c, st') => good st0 st' (1 + Nat.max 4 (bneed body))
+                       | Err e => oor_ok st0 (1 + Nat.max 4 (bneed body)) e
+                       end);
+        [|destruct X as [[c st']|e]; [eapply good_same_l; eauto|eapply oor_same; eauto]]
+      end.
+      clear Sa. rename st into st_orig. rename st0 into st.
       destruct (take st) as [[r1 s1]|e] eqn:H1; cbn [bind];
         [|intros Hl Hc; apply take_err in H1; destruct H1 as [_ H1]; unfold NREGS in *; lia].
       destruct (take_len_count _ _ _ H1) as [L1 C1].
